@@ -15,7 +15,7 @@ CONSTS = {"Bug": "none"}
 SUBST = {"RxSeq": "RxSeq8", "MetSeq": "MetSeq4", "GeneSeq": "GeneSeq4", "GrpSeq": "GrpSeq1"}
 
 # "full:N" = every sequence of N operations of the small context vocabulary (exhaustive), closed by exits
-PROFILE = {"C01": ["edit"], "C02": ["edit"], "C03": ["full", "fullmid", "fullbounds", "ctx"], "C07": ["ko"], "C12": ["fullcopy", "copy"],
+PROFILE = {"C01": ["fullbounds", "edit"], "C02": ["fullcopy", "edit"], "C03": ["full", "fullmid", "fullbounds", "ctx"], "C07": ["ko"], "C12": ["fullcopy", "copy"],
            "C13": ["analyze"], "C10": ["fullio", "io"], "C11": ["fullio", "io"]}
 TIERS = {
     "quick": {"full": (0, 2), "fullmid": (0, 0), "fullbounds": (0, 3), "fullio": (0, 3), "fullcopy": (0, 2), "edit": (700, 14), "ctx": (300, 16), "ko": (700, 12), "copy": (600, 14), "analyze": (220, 9),
